@@ -12,9 +12,13 @@ RULE = ("histories over {fit(D_i), transform(D_j), inverse_transform, components
         "fitted on the data of the last fit; user inputs deep-compared before/after; thorough = all histories up to length 4 over a "
         "reduced alphabet per class + random longer ones; distinct by (class, op sequence)")
 EXHAUSTIVE = {"quick": False, "thorough": False}
-CLASSES = ["EOF", "ComplexEOF", "HilbertEOF", "ExtendedEOF", "SparsePCA", "POP", "OPA", "MCA", "CPCCA", "CCA", "ComplexMCA", "multi.CCA"]
-OPS = ["fit0", "fit1", "fit2", "fit3", "transform0", "transform1", "transformN", "inverse", "components", "scores", "metrics", "compute",
+CLASSES = ["EOF", "ComplexEOF", "HilbertEOF", "ExtendedEOF", "SparsePCA", "POP", "OPA", "MCA", "CPCCA", "CCA", "ComplexMCA", "multi.CCA", "MCA+pcaall", "POP+pcaall"]
+OPS = ["fit0", "fit1", "fit2", "fit3", "fit4", "transform0", "transform1", "transformN", "inverse", "components", "scores", "metrics", "compute",
        "serialize", "rotator", "bootstrap"]
+
+
+def dim_of(which):
+    return ("time", "lat") if which == 4 else "time"
 
 
 def datasets(name, which):
@@ -39,6 +43,8 @@ def datasets(name, which):
             X = one(4, n=24, ny=2, nx=3)
         else:
             X = xr.Dataset({"a": a, "b": a * 2.0 + 1.0})
+    elif which == 4:
+        X = one(5, n=12, ny=3, nx=4)  # fitted with dim=("time", "lat"): the sample axis goes through a MultiIndex
     elif which == "N":  # new samples, fitted structure of D(last) is needed: built by caller
         raise KeyError
     if two:
@@ -73,12 +79,18 @@ def cases(seed, tier, broken=()):
         out.append({"cls": cls, "ops": ["fit0", "fit1", "scores", "components", "transform1", "inverse"]})
         out.append({"cls": cls, "ops": ["fit0", "transformN", "scores", "rotator", "scores", "components", "metrics", "serialize", "transform0"]})
     out.append({"cls": "EOF", "ops": ["fit0", "bootstrap", "scores", "components", "metrics"]})
+    for cls in ("EOF", "MCA", "SparsePCA", "EOF"):
+        out.append({"cls": cls, "ops": ["fit4", "transformN", "scores", "inverse", "components", "transform4"]})
     out.append({"cls": "EOF", "ops": ["fit0", "fit3", "components", "fit2", "scores", "transform2"]})
+    for cls in ("EOF", "SparsePCA", "POP"):
+        out.append({"cls": cls, "ops": ["fitW", "serialize", "scores", "components"]})
+    for cls in ("MCA+pcaall", "POP+pcaall"):
+        out.append({"cls": cls, "ops": ["fit2", "fit0", "scores", "components", "metrics"]})
     nrand = {"quick": 36, "thorough": 600, "search": 300}[tier]
     for i in range(nrand):
         cls = CLASSES[i % len(CLASSES)]
         L = int(rng.integers(3, 8))
-        ops = ["fit%d" % rng.integers(0, 4)]
+        ops = ["fit%d" % rng.integers(0, 5)]
         for _ in range(L):
             ops.append(str(rng.choice(OPS, p=_op_p())))
         out.append({"cls": cls, "ops": ops})
@@ -92,7 +104,7 @@ def cases(seed, tier, broken=()):
 
 
 def _op_p():
-    w = np.array([2, 2, 1.5, 1.5, 1, 1, 1.5, 1, 1, 1, 1, 1, 1, 1.2, 0.6])
+    w = np.array([2, 2, 1.5, 1.5, 1.5, 1, 1, 1.5, 1, 1, 1, 1, 1, 1, 1.2, 0.6])
     return w / w.sum()
 
 
@@ -116,8 +128,8 @@ def same_input(a, b):
     return True
 
 
-def _fresh(cls, data, cfg):
-    m, _ = zoo.fit(cls, data, "time", cfg)
+def _fresh(cls, data, cfg, dim="time"):
+    m, _ = zoo.fit(cls, data, dim, cfg)
     return m
 
 
@@ -147,10 +159,15 @@ def meta(model):
 
 def run(case):
     F = []
-    cls = case["cls"]
-    cfg = zoo.default_cfg(cls, n_modes=2, solver="full") if cls not in ("multi.CCA",) else zoo.default_cfg(cls, n_modes=2)
+    cls0 = case["cls"]
+    cls = cls0.split("+")[0]
+    cfg = zoo.default_cfg(cls, n_modes=2, solver="full", random_state=1) if cls not in ("multi.CCA",) else zoo.default_cfg(cls, n_modes=2)
     if cls == "OPA":
         cfg["n_pca_modes"] = 4
+    if cls0.endswith("+pcaall"):
+        cfg.update(n_pca_modes="all")
+        if cls == "MCA":
+            cfg.update(use_pca=True)
     model = zoo.construct(cls, cfg)
     last = None  # data of the last fit
     fresh = None
@@ -160,14 +177,30 @@ def run(case):
     for op in case["ops"]:
         steps += 1
         try:
-            if op.startswith("fit"):
+            if op == "fitW":
+                if zoo.kind(cls) != "single":
+                    continue
+                d = datasets(cls, 0)
+                W = xr.DataArray(np.linspace(0.5, 2.0, 12).reshape(3, 4), dims=("lat", "lon"), coords={"lat": d.lat, "lon": d.lon})
+                W0 = W.copy(deep=True)
+                model.fit(d, "time", weights=W)
+                if hasattr(model, "serialize"):
+                    model.serialize()
+                if not (W.identical(W0) and W.name == W0.name):
+                    F.append(Finding("oracle", "input_unmodified", f"{cls}|weights", f"the user's weights object was modified (name {W0.name!r} -> {W.name!r})"))
+                last = d
+                last_dim = "time"
+                fresh = zoo.construct(cls, cfg)
+                fresh.fit(datasets(cls, 0), "time", weights=W0.copy(deep=True))
+            elif op.startswith("fit"):
                 d = datasets(cls, int(op[3:]))
                 snap = snapshot(d)
-                zoo.fit(cls, d, "time", cfg, model=model)
+                last_dim = dim_of(int(op[3:]))
+                zoo.fit(cls, d, last_dim, cfg, model=model)
                 if not same_input(d, snap):
                     F.append(Finding("oracle", "input_unmodified", f"{cls}|fit", f"{op} modified the user's input object"))
                 last = d
-                fresh = _fresh(cls, datasets(cls, int(op[3:])), cfg)
+                fresh = _fresh(cls, datasets(cls, int(op[3:])), cfg, last_dim)
             elif last is None:
                 continue
             elif op.startswith("transform"):
@@ -195,10 +228,10 @@ def run(case):
             elif op == "metrics":
                 zoo.answers(cls, model)
             elif op == "compute":
-                if hasattr(model, "compute"):
+                if callable(getattr(model, "compute", None)):
                     model.compute()
             elif op == "serialize":
-                if hasattr(model, "serialize"):
+                if callable(getattr(model, "serialize", None)):
                     model.serialize()
             elif op in ("rotator", "bootstrap"):
                 rot = None
@@ -235,6 +268,6 @@ def run(case):
             r = compare_answers(b, a)
             if r:
                 kind = "refit" if sum(1 for o in case["ops"][:steps] if o.startswith("fit")) > 1 else "queries"
-                F.append(Finding("oracle", "last_fit_determines", f"{cls}|{kind}", f"after {case['ops'][:steps]}: {r}"))
+                F.append(Finding("oracle", "last_fit_determines", f"{cls0}|{kind}", f"after {case['ops'][:steps]}: {r}"))
                 break
     return {"findings": F, "info": {"steps": steps, "oracle_checks": {"steps": steps}, "dist": {"cls": cls, "len": len(case["ops"])}}}
